@@ -171,8 +171,17 @@ structure Inner where
   extensions : List (Nat × Nat)
 deriving DecidableEq
 
-/-- `http::Uri::path()` for origin-form targets -/
-def uriPath (uri : String) : List Char := uri.toList.takeWhile (· ≠ '?')
+/-- is the request target authority-form (`CONNECT host:port`)?  (neither origin-form nor `*`) -/
+def isAuthorityForm (uri : String) : Bool :=
+  match uri.toList with
+  | '/' :: _ => false
+  | ['*'] => false
+  | _ => true
+
+/-- `http::Uri::path()`: origin-form `/p?q` ↦ `/p`, asterisk-form `*` ↦ `*`, authority-form
+`host:port` ↦ `` (no path component) -/
+def uriPath (uri : String) : List Char :=
+  if isAuthorityForm uri then [] else uri.toList.takeWhile (· ≠ '?')
 
 /-- `Quoter::requote` of `Quoter::new(b"", b"%/+")` (actix-router/src/quoter.rs:35-66): every valid
 `%XX` is decoded unless it decodes to one of the protected `%`, `/`, `+`; scanning resumes after a
@@ -431,7 +440,9 @@ def dump (cfg : Cfg) (i : Inner) : String :=
   ";D=" ++ joinWith "," (dataTags.map fun t => showOpt (appDataGet cfg i t)) ++
   -- `connection_info().host()` (cached in the request extensions on first use): `Host` header,
   -- else `AppConfig::default().host()`
-  ";ci=" ++ (match headerGet i.head.headers "host" with | some h => h | none => "localhost:8080") ++
+  ";ci=" ++ (match headerGet i.head.headers "host" with
+    | some h => h
+    | none => if isAuthorityForm i.head.uri then i.head.uri else "localhost:8080") ++   -- uri.authority()
   ";n=" ++ showOptS (matchName cfg i) ++
   ";t=" ++ showOptS (matchPattern cfg i)
 
